@@ -26,6 +26,14 @@ Definition make_ident (prefix : string) (m : member) : string :=
   end.
 
 Definition with_ref (is_ref : bool) (t : toks) : toks := if is_ref then TP "&" :: t else t.
+(** `ref_target`: the tokens of a type right after `&`, `&'a`, `&mut` — a trait object with several
+    bounds is parenthesised there (`&(dyn A + B)`) *)
+Definition ref_target (t : ty) : toks :=
+  match t with
+  | TyDyn (_ :: _ :: _) => tparen (r_ty t)
+  | _ => r_ty t
+  end.
+Definition with_ref_ty (is_ref : bool) (t : ty) : toks := if is_ref then TP "&" :: ref_target t else r_ty t.
 
 (** `build_ctor_args` *)
 Definition ctor_args (sh : shape) (fs : list fld) (values : list toks) : toks :=
@@ -40,19 +48,20 @@ Definition ctor_args (sh : shape) (fs : list fld) (values : list toks) : toks :=
 (** ** headers *)
 Definition r_where_item (form : where_form) (tr : toks) (t : ty) : toks :=
   let ty := r_ty t in
+  let rt := ref_target t in
   match form with
   | WFPlain => ty ++ [TP ":"] ++ tr
   | WFBin true true =>
-      q "for < '__a > & '__a" ++ ty ++ [TP ":"] ++ tr ++ q "< & '__a" ++ ty ++ q ", Output =" ++ ty ++ q ">"
+      q "for < '__a > & '__a" ++ rt ++ [TP ":"] ++ tr ++ q "< & '__a" ++ rt ++ q ", Output =" ++ ty ++ q ">"
   | WFBin true false =>
-      q "for < '__a > & '__a" ++ ty ++ [TP ":"] ++ tr ++ q "<" ++ ty ++ q ", Output =" ++ ty ++ q ">"
+      q "for < '__a > & '__a" ++ rt ++ [TP ":"] ++ tr ++ q "<" ++ ty ++ q ", Output =" ++ ty ++ q ">"
   | WFBin false true =>
-      q "for < '__a >" ++ ty ++ [TP ":"] ++ tr ++ q "< & '__a" ++ ty ++ q ", Output =" ++ ty ++ q ">"
+      q "for < '__a >" ++ ty ++ [TP ":"] ++ tr ++ q "< & '__a" ++ rt ++ q ", Output =" ++ ty ++ q ">"
   | WFBin false false =>
       ty ++ [TP ":"] ++ tr ++ q "<" ++ ty ++ q ", Output =" ++ ty ++ q ">"
-  | WFAssign true => q "for < '__a >" ++ ty ++ [TP ":"] ++ tr ++ q "< & '__a" ++ ty ++ q ">"
+  | WFAssign true => q "for < '__a >" ++ ty ++ [TP ":"] ++ tr ++ q "< & '__a" ++ rt ++ q ">"
   | WFAssign false => ty ++ [TP ":"] ++ tr ++ q "<" ++ ty ++ q ">"
-  | WFUn true => q "for < '__a > & '__a" ++ ty ++ [TP ":"] ++ tr ++ q "< Output =" ++ ty ++ q ">"
+  | WFUn true => q "for < '__a > & '__a" ++ rt ++ [TP ":"] ++ tr ++ q "< Output =" ++ ty ++ q ">"
   | WFUn false => ty ++ [TP ":"] ++ tr ++ q "< Output =" ++ ty ++ q ">"
   end.
 
@@ -358,10 +367,12 @@ Definition r_body (h : impl_hdr) (b : body) : toks :=
   let tr := trait_path (ih_trait h) in
   match b with
   | BDeref target m =>
-      q "type Target =" ++ r_ty target ++ q "; fn deref ( & self ) -> &" ++ r_ty target ++
+      q "type Target =" ++ r_ty target ++ q "; fn deref ( & self ) -> & Self :: Target" ++
       tbrace (q "& self ." ++ r_member m)
   | BDerefMut target m =>
-      q "fn deref_mut ( & mut self ) -> & mut" ++ r_ty target ++ tbrace (q "& mut self ." ++ r_member m)
+      q "fn deref_mut ( & mut self ) -> & mut Self :: Target" ++
+      tbrace (q "let _ : :: core :: marker :: PhantomData <" ++ r_ty target ++
+              q "> = :: core :: marker :: PhantomData :: < Self :: Target > ; & mut self ." ++ r_member m)
   | BCopy => []
   | BCloneStruct name sh fs => r_clone_struct name sh fs
   | BCloneEnum vs => r_clone_enum vs
@@ -389,8 +400,8 @@ Definition r_body (h : impl_hdr) (b : body) : toks :=
       tparen (q "self , __rhs :" ++ with_ref r this) ++ q "-> Self :: Output" ++
       tbrace ([TI name] ++ ctor_args sh fs
                 (map (fun f =>
-                        let ft := r_ty (fl_ty f) in
-                        ufcs (with_ref l ft) (tr ++ [TP "<"] ++ with_ref r ft ++ [TP ">"]) func
+                        let ft := fl_ty f in
+                        ufcs (with_ref_ty l ft) (tr ++ [TP "<"] ++ with_ref_ty r ft ++ [TP ">"]) func
                              [with_ref l (self_dot "self" (fl_member f));
                               with_ref r (self_dot "__rhs" (fl_member f))]) fs))
   | BAssign op r fs =>
@@ -398,8 +409,8 @@ Definition r_body (h : impl_hdr) (b : body) : toks :=
       [TI "fn"; TI func] ++ tparen (q "& mut self , __rhs :" ++ with_ref r this) ++
       tbrace (term_by [TP ";"]
                 (map (fun f =>
-                        let ft := r_ty (fl_ty f) in
-                        ufcs ft (tr ++ [TP "<"] ++ with_ref r ft ++ [TP ">"]) func
+                        let ft := fl_ty f in
+                        ufcs (r_ty ft) (tr ++ [TP "<"] ++ with_ref_ty r ft ++ [TP ">"]) func
                              [q "& mut" ++ self_dot "self" (fl_member f);
                               with_ref r (self_dot "__rhs" (fl_member f))]) fs))
   | BUn op l name sh fs =>
@@ -407,7 +418,7 @@ Definition r_body (h : impl_hdr) (b : body) : toks :=
       q "type Output =" ++ this ++ q "; fn" ++ [TI func] ++ q "( self ) -> Self :: Output" ++
       tbrace ([TI name] ++ ctor_args sh fs
                 (map (fun f =>
-                        ufcs (with_ref l (r_ty (fl_ty f))) tr func
+                        ufcs (with_ref_ty l (fl_ty f)) tr func
                              [with_ref l (self_dot "self" (fl_member f))]) fs))
   | BPartialEqStruct cs =>
       q "fn eq ( & self , __other : & Self ) -> bool" ++ tbrace (r_cmp_fields CPartialEq SKStruct cs)
